@@ -19,10 +19,11 @@ class GatewaySim:
                  route_back: bool = False):
         from xknx import XKNX
         from xknx.io import TCPTunnel, UDPTunnel
+        from xknx.io.tunnel import SecureTunnel
 
         self.loop, self.kind = loop, kind
         self.ev: list[dict] = []
-        self.plans = {"tun": list(tun_plan), "connect": list(connect_plan), "hb": list(hb_plan), "disc": list(disc_plan)}
+        self.plans = {"tun": list(tun_plan), "connect": list(connect_plan), "hb": list(hb_plan), "disc": list(disc_plan), "session": [], "auth": []}
         self.late = late
         self.next_chan = first_chan
         self.chan = None  # channel of the connection the server believes is open
@@ -39,6 +40,13 @@ class GatewaySim:
             self.tun = UDPTunnel(self.xknx, gateway_ip=GW[0], gateway_port=GW[1], local_ip="10.0.0.1",
                                  cemi_received_callback=self._up, auto_reconnect=auto_reconnect,
                                  auto_reconnect_wait=auto_reconnect_wait, route_back=route_back)
+        elif kind == "secure":
+            # KNX IP Secure tunnelling: the same server behind a secure session (handshake answered with the library's primitives -
+            # their octets are the subject of C28; the user password key is derived once per process)
+            _memoise_pbkdf2()
+            self.srv = None          # the server's side of the current secure session
+            self.tun = SecureTunnel(self.xknx, gateway_ip=GW[0], gateway_port=GW[1], cemi_received_callback=self._up, user_id=2,
+                                    user_password="pw", auto_reconnect=auto_reconnect, auto_reconnect_wait=auto_reconnect_wait)
         else:
             self.tun = TCPTunnel(self.xknx, gateway_ip=GW[0], gateway_port=GW[1], cemi_received_callback=self._up,
                                  auto_reconnect=auto_reconnect, auto_reconnect_wait=auto_reconnect_wait)
@@ -93,12 +101,20 @@ class GatewaySim:
             tr = self._endpoint()
             if tr is None or tr.is_closing():
                 return  # a closed socket receives nothing
+            data = raw
+            if self.kind == "secure" and not (body is not None and type(body).__name__ == "SessionResponse"):
+                if self.srv is None:
+                    return  # no session: nothing can be sent
+                from xknx.knxip import KNXIPFrame  # noqa: PLC0415
+
+                self.srv.seq += 1
+                data = self.srv.encrypt_frame(KNXIPFrame.from_knx(raw)[0]).to_knx()
             if body is not None:
                 self.log("rx", **self.describe(body))
             if self.kind == "udp":
-                tr.deliver(raw, GW)
+                tr.deliver(data, GW)
             else:
-                tr.deliver(raw)
+                tr.deliver(data)
 
         if delay:
             self.loop.inject_later(delay, go)
@@ -111,7 +127,7 @@ class GatewaySim:
         ch = getattr(body, "communication_channel_id", getattr(body, "communication_channel", None))
         d["chan"] = -1 if ch is None else ch
         d["seq"] = getattr(body, "sequence_counter", -1)
-        st = getattr(body, "status_code", None)
+        st = getattr(body, "status_code", getattr(body, "status", None))
         d["st"] = 0 if st is None else st.value
         raw = getattr(body, "raw_cemi", None)
         if raw:
@@ -135,6 +151,10 @@ class GatewaySim:
             return self._prev_on_send(tr, data, addr)
         frame, _ = KNXIPFrame.from_knx(data)
         b = frame.body
+        if self.kind == "secure":
+            b = self._secure_layer(frame)
+            if b is None:
+                return
         self.log("tx", **self.describe(b))
         if self.on_client_frame is not None and self.on_client_frame(b):
             return
@@ -209,6 +229,79 @@ class GatewaySim:
         elif isinstance(b, DisconnectResponse):
             pass
 
+    def _secure_layer(self, frame):
+        """the secure session under the tunnel: answers the handshake, unwraps everything else; returns the inner body or None"""
+        from cryptography.hazmat.primitives import serialization
+        from cryptography.hazmat.primitives.asymmetric.x25519 import X25519PrivateKey, X25519PublicKey
+        from xknx.io.ip_secure import _IPSecureTransportLayer
+        from xknx.knxip import SecureWrapper, SessionAuthenticate, SessionRequest, SessionResponse, SessionStatus
+        from xknx.knxip.knxip_enum import SecureSessionStatusCode
+        from xknx.secure.util import sha256_hash
+
+        b = frame.body
+        if isinstance(b, SessionRequest):
+            self.log("tx", **self.describe(b))
+            r = self._plan("session")
+            if r != "ok":
+                return None                                  # "lost": no answer
+
+            class Srv(_IPSecureTransportLayer):
+                def __init__(self, key, sid):
+                    self._key, self.session_id, self.seq = key, sid, -1
+
+                def get_sequence_information(self):
+                    return self.seq.to_bytes(6, "big")
+
+                def get_message_tag(self):
+                    return bytes(2)
+
+            priv = X25519PrivateKey.generate()
+            pub = priv.public_key().public_bytes(serialization.Encoding.Raw, serialization.PublicFormat.Raw)
+            key = sha256_hash(priv.exchange(X25519PublicKey.from_public_bytes(b.ecdh_client_public_key)))[:16]
+            self.n_sess = getattr(self, "n_sess", 0) + 1
+            self.srv = Srv(key, 0x20 + self.n_sess)
+            self.deliver(SessionResponse(secure_session_id=self.srv.session_id, ecdh_server_public_key=pub, message_authentication_code=bytes(16)))
+            return None
+        if not isinstance(b, SecureWrapper) or self.srv is None:
+            self.log("tx", **self.describe(b))              # a plain frame where a wrapped one is due: recorded, not answered
+            return None
+        try:
+            inner = self.srv.decrypt_frame(frame).body
+        except Exception:  # noqa: BLE001 - e.g. a frame of a previous session
+            self.log("tx", kind="undecryptable", chan=-1, seq=-1, st=0)
+            return None
+        if isinstance(inner, SessionAuthenticate):
+            self.log("tx", **self.describe(inner))
+            r = self._plan("auth")
+            if r == "ok":
+                self.deliver(SessionStatus(status=SecureSessionStatusCode.STATUS_AUTHENTICATION_SUCCESS))
+            elif r == "fail":
+                self.deliver(SessionStatus(status=SecureSessionStatusCode.STATUS_AUTHENTICATION_FAILED))
+            return None
+        if isinstance(inner, SessionStatus):                # keep-alive, or the client closes the session
+            self.log("tx", **self.describe(inner))
+            if inner.status == SecureSessionStatusCode.STATUS_CLOSE:
+                self.srv = None
+            return None
+        return inner
+
+    def server_session_status(self, status: str = "STATUS_CLOSE", then_close: bool = False) -> None:
+        """the server ends the secure session (and, as real devices do, may close the TCP connection right after)"""
+        from xknx.knxip import SessionStatus
+        from xknx.knxip.knxip_enum import SecureSessionStatusCode
+
+        self.deliver(SessionStatus(status=SecureSessionStatusCode[status]))
+        self.chan = None
+
+        def end():
+            self.srv = None
+            if then_close:
+                tr = self._endpoint()
+                if tr is not None and not tr.is_closing():
+                    tr.lose(None)
+
+        self.loop.inject(end)
+
     # ------------------------------------------------------------------ helpers for drivers
     def server_tunnelling_request(self, chan: int, seq: int, cemi_id: int, delay: float = 0.0) -> None:
         from xknx.knxip import TunnellingRequest
@@ -237,6 +330,22 @@ class GatewaySim:
                 t._cancel_invalid_sequence_number_reconnect_schedule()
         except Exception:  # noqa: BLE001
             pass
+
+
+_PBKDF2_MEMO = []
+
+
+def _memoise_pbkdf2():
+    """SecureSession derives the user password key with PBKDF2 (65536 rounds) in its constructor: once per password here"""
+    if _PBKDF2_MEMO:
+        return
+    import functools
+
+    import xknx.io.ip_secure as ips
+
+    ips.derive_user_password = functools.lru_cache(maxsize=None)(ips.derive_user_password)
+    ips.derive_device_authentication_password = functools.lru_cache(maxsize=None)(ips.derive_device_authentication_password)
+    _PBKDF2_MEMO.append(1)
 
 
 def group_write_cemi(value: int = 1):
